@@ -728,6 +728,36 @@ def fam_trap_then_jump(tier, rng):
 FAMILIES.append(fam_trap_then_jump)
 
 
+def fam_return_label_out(tier, rng):
+    """RETURN label from a routine that was entered by a GOSUB inside a FOR body / SELECT CASE block nested in an outer FOR: the
+    label stands inside the outer FOR behind the inner block, or behind the outer FOR"""
+    out = []
+    for inner in ("for", "select", "for+select", "while"):
+        for where in ("behind-inner", "behind-outer"):
+            b = B()
+            i, j = var("I", "I"), var("J", "I")
+            core = [b.if_([(bin_("=", var("G", "I"), lit("I", 0)), [b.let(var("G", "I"), lit("I", 1)), b.gosub("SR")])]), tok(b, "ok", i)]
+
+            def wrap1(k, body):
+                if k == "for":
+                    return [b.for_(j, lit("I", 1), lit("I", 3), None, body + [tok(b, "j", j)], hasstep=False)]
+                if k == "select":
+                    return [b.select(lit("I", 2), [([eqt(lit("I", 2))], body)], [tok(b, "else")])]
+                return [b.let(var("W", "I"), lit("I", 0)), b.while_(bin_("<", var("W", "I"), lit("I", 2)), [b.let(var("W", "I"), bin_("+", var("W", "I"), lit("I", 1)))] + body)]
+            blk = core
+            for k in reversed(inner.split("+")):
+                blk = wrap1(k, blk)
+            lab = [b.label("L"), tok(b, "at-l", i)]
+            body = [tok(b, "i", i)] + blk + (lab if where == "behind-inner" else [])
+            main = [b.for_(i, lit("I", 1), lit("I", 2), None, body, hasstep=False)] + (lab if where == "behind-outer" else []) + \
+                   [tok(b, "done", i), b.end(), b.label("SR"), tok(b, "sr"), b.ret("L")]
+            out.append({"fam": "return-label-out:%s/%s" % (inner, where), "prog": prog(main)})
+    return out
+
+
+FAMILIES.append(fam_return_label_out)
+
+
 def cases(tier, seed):
     rng = random.Random(seed)
     out = []
